@@ -34,6 +34,43 @@ impl Bytes {
     pub fn get(&self, i: u32) -> (r: Option<u8>)
         ensures r == (if (i as int) < self@.len() { Some(self@[i as int]) } else { None::<u8> }),
     { unimplemented!() }
+    /// traps when out of range
+    #[verifier::external_body]
+    pub fn get_unchecked(&self, i: u32) -> (r: u8) ensures (i as int) < self@.len(), r == self@[i as int] { unimplemented!() }
+    #[verifier::external_body]
+    pub fn first(&self) -> (r: Option<u8>) ensures r == (if self@.len() > 0 { Some(self@[0]) } else { None::<u8> }) { unimplemented!() }
+    #[verifier::external_body]
+    pub fn last(&self) -> (r: Option<u8>) ensures r == (if self@.len() > 0 { Some(self@[self@.len() - 1]) } else { None::<u8> }) { unimplemented!() }
+    /// traps when empty
+    #[verifier::external_body]
+    pub fn first_unchecked(&self) -> (r: u8) ensures self@.len() > 0, r == self@[0] { unimplemented!() }
+    /// traps when empty
+    #[verifier::external_body]
+    pub fn last_unchecked(&self) -> (r: u8) ensures self@.len() > 0, r == self@[self@.len() - 1] { unimplemented!() }
+    /// traps when out of range
+    #[verifier::external_body]
+    pub fn set(&mut self, i: u32, x: u8) ensures (i as int) < old(self)@.len(), final(self)@ == old(self)@.update(i as int, x) { unimplemented!() }
+    /// traps when i > len
+    #[verifier::external_body]
+    pub fn insert(&mut self, i: u32, x: u8) ensures (i as int) <= old(self)@.len(), final(self)@ == old(self)@.insert(i as int, x) { unimplemented!() }
+    #[verifier::external_body]
+    pub fn remove(&mut self, i: u32) -> (r: Option<()>)
+        ensures (i as int) < old(self)@.len() ==> r.is_some() && final(self)@ == old(self)@.remove(i as int),
+            (i as int) >= old(self)@.len() ==> r.is_none() && final(self)@ == old(self)@,
+    { unimplemented!() }
+    /// traps when out of range
+    #[verifier::external_body]
+    pub fn remove_unchecked(&mut self, i: u32) ensures (i as int) < old(self)@.len(), final(self)@ == old(self)@.remove(i as int) { unimplemented!() }
+    #[verifier::external_body]
+    pub fn pop_back(&mut self) -> (r: Option<u8>)
+        ensures old(self)@.len() == 0 ==> r.is_none() && final(self)@ == old(self)@,
+            old(self)@.len() > 0 ==> r == Some(old(self)@.last()) && final(self)@ == old(self)@.drop_last(),
+    { unimplemented!() }
+    /// traps when empty
+    #[verifier::external_body]
+    pub fn pop_back_unchecked(&mut self) -> (r: u8)
+        ensures old(self)@.len() > 0, r == old(self)@.last(), final(self)@ == old(self)@.drop_last(),
+    { unimplemented!() }
     #[verifier::external_body]
     pub fn append(&mut self, other: &Bytes) ensures final(self)@ == old(self)@ + other@ { unimplemented!() }
     #[verifier::external_body]
